@@ -8,15 +8,19 @@
 //!   cev <time_ns> <ins> ...                 a message that a capturing ProcessingElement of the module CONSUMES: the
 //!                                           element executes the instructions (w only) in `incoming`, i.e. outside
 //!                                           the executor (a hand-off to a task through a channel); the handler is not run
+//!   xev <time_ns> <ins> ...                 a message delivered to a SECOND module at <time_ns>; its handler executes the
+//!                                           instructions (w / n only) on the conditions it shares with the first
+//!                                           module (Arc captured at build time): a cross-module wake
 //!   run                                     run the simulation; the transcript answer carries everything observed
 //! Instructions (`*n` suffix = repeat n times):
 //!   s<T>  spawn task T            w<K>  wake condition K once     a<K>  await condition K
 //!   y     tokio::task::yield_now().await                          j<T>  await the JoinHandle of task T
 //!   z<D>  des::time::sleep(D ns).await                            u<T>  des::time::sleep_until(T ns).await
+//!   n<K>  Notify::notify_waiters() on condition K (K % 3 == 2)
 //! Condition K is a real tokio primitive chosen by K % 3:
-//!   0 Semaphore (wake = add_permits(1), await = acquire().await + forget)
-//!   1 mpsc::unbounded_channel (wake = send(()), await = recv().await)
-//!   2 Notify (wake = notify_one(), await = notified().await)
+//!   0 Semaphore (wake = add_permits(1), await = acquire().await + forget); any number of waiting tasks
+//!   1 mpsc::unbounded_channel (wake = send(()) from anywhere, await = recv().await by ONE receiving task)
+//!   2 Notify (wake = notify_one(), n = notify_waiters(), await = notified().await); any number of waiting tasks
 //! Every task records (SimTime::now(), tag) when it is first polled and after every await.
 //!
 //! Transcript:  run -> L=<n> E=<n> C=<n> G=<n> res=<ok|err|panic> log=<t>:<tag>,<tag>;<t>:<tag>...
@@ -50,6 +54,7 @@ enum Ins {
     Join(u32),
     Sleep(u64),
     SleepUntil(u64),
+    NotifyAll(u32),
 }
 
 fn parse_ins(tok: &str, out: &mut Vec<Ins>) {
@@ -69,6 +74,7 @@ fn parse_ins(tok: &str, out: &mut Vec<Ins>) {
         ("w", Some(n)) => Ins::Wake(n),
         ("a", Some(n)) => Ins::Wait(n),
         ("j", Some(n)) => Ins::Join(n),
+        ("n", Some(n)) => Ins::NotifyAll(n),
         ("y", None) if arg.is_empty() => Ins::Yield,
         _ => return,
     };
@@ -113,6 +119,12 @@ impl World {
         }
     }
 
+    fn notify_all(&self, k: u32) {
+        if let Some(Cond::Note(n)) = self.conds.get(&k) {
+            n.notify_waiters();
+        }
+    }
+
     fn spawn(self: &Arc<Self>, t: u32) {
         let Some((loc, _)) = self.progs.get(&t) else {
             return;
@@ -129,11 +141,22 @@ impl World {
         self.started.lock().unwrap().insert(t, Some(h));
     }
 
+    fn exec_sync_wakes(&self, prog: &[Ins]) {
+        for ins in prog {
+            match *ins {
+                Ins::Wake(k) => self.wake(k),
+                Ins::NotifyAll(k) => self.notify_all(k),
+                _ => {}
+            }
+        }
+    }
+
     fn exec_sync(self: &Arc<Self>, prog: &[Ins]) {
         for ins in prog {
             match *ins {
                 Ins::Spawn(t) => self.spawn(t),
                 Ins::Wake(k) => self.wake(k),
+                Ins::NotifyAll(k) => self.notify_all(k),
                 _ => {}
             }
         }
@@ -169,6 +192,7 @@ fn run_task(w: Arc<World>, tag: u32) -> Pin<Box<dyn Future<Output = ()> + Send>>
             match ins {
                 Ins::Spawn(t) => w.spawn(t),
                 Ins::Wake(k) => w.wake(k),
+                Ins::NotifyAll(k) => w.notify_all(k),
                 Ins::Wait(k) => {
                     wait(&w, k).await;
                     w.record(tag);
@@ -202,25 +226,21 @@ fn run_task(w: Arc<World>, tag: u32) -> Pin<Box<dyn Future<Output = ()> + Send>>
 
 struct Node {
     w: Arc<World>,
-    events: Arc<Vec<(bool, Vec<Ins>)>>,
+    events: Arc<Vec<(u8, Vec<Ins>)>>,
 }
 
 /// consumes the messages of `cev` lines, performing their wakes outside the executor
 struct Capture {
     w: Arc<World>,
-    events: Arc<Vec<(bool, Vec<Ins>)>>,
+    events: Arc<Vec<(u8, Vec<Ins>)>>,
 }
 
 impl ProcessingElement for Capture {
     fn incoming(&mut self, msg: Message) -> Option<Message> {
         let id = msg.header().id as usize;
         match self.events.get(id) {
-            Some((true, prog)) => {
-                for ins in prog {
-                    if let Ins::Wake(k) = *ins {
-                        self.w.wake(k);
-                    }
-                }
+            Some((1, prog)) => {
+                self.w.exec_sync_wakes(prog);
                 None
             }
             _ => Some(msg),
@@ -237,7 +257,7 @@ impl Module for Node {
 
     fn handle_message(&mut self, msg: Message) {
         let id = msg.header().id as usize;
-        if let Some((_, prog)) = self.events.get(id) {
+        if let Some((0, prog)) = self.events.get(id) {
             self.w.exec_sync(prog);
         }
     }
@@ -248,9 +268,25 @@ impl Module for Node {
     }
 }
 
+/// the second module: its handler wakes conditions it shares with the first one
+struct Other {
+    w: Arc<World>,
+    events: Arc<Vec<(u8, Vec<Ins>)>>,
+}
+
+impl Module for Other {
+    fn handle_message(&mut self, msg: Message) {
+        let id = msg.header().id as usize;
+        if let Some((2, prog)) = self.events.get(id) {
+            self.w.exec_sync_wakes(prog);
+        }
+    }
+}
+
+/// event kinds: 0 = `ev`, 1 = `cev`, 2 = `xev`
 struct Script {
     tasks: Vec<(u32, bool, Vec<Ins>)>,
-    events: Vec<(u64, bool, Vec<Ins>)>,
+    events: Vec<(u64, u8, Vec<Ins>)>,
 }
 
 fn parse(body: &[String]) -> (Script, bool) {
@@ -268,13 +304,13 @@ fn parse(body: &[String]) -> (Script, bool) {
                 }
                 s.tasks.push((tag, loc, prog));
             }
-            Some("ev") | Some("cev") if toks.len() >= 2 => {
+            Some("ev") | Some("cev") | Some("xev") if toks.len() >= 2 => {
                 let Some(t) = toks[1].parse::<u64>().ok() else { continue };
                 let mut prog = Vec::new();
                 for t in &toks[2..] {
                     parse_ins(t, &mut prog);
                 }
-                s.events.push((t, toks[0] == "cev", prog));
+                s.events.push((t, match toks[0] { "cev" => 1, "xev" => 2, _ => 0 }, prog));
             }
             Some("run") => run = true,
             _ => {}
@@ -289,7 +325,7 @@ fn simulate(s: &Script) -> (&'static str, Vec<(u64, u32)>) {
     let mut conds = HashMap::new();
     let mut note = |prog: &Vec<Ins>| {
         for ins in prog {
-            if let Ins::Wake(k) | Ins::Wait(k) = *ins {
+            if let Ins::Wake(k) | Ins::Wait(k) | Ins::NotifyAll(k) = *ins {
                 conds.entry(k).or_insert_with(|| match k % 3 {
                     0 => Cond::Sem(Semaphore::new(0)),
                     1 => {
@@ -315,17 +351,21 @@ fn simulate(s: &Script) -> (&'static str, Vec<(u64, u32)>) {
         log: Mutex::new(Vec::new()),
         ended: AtomicBool::new(false),
     });
-    let events: Arc<Vec<(bool, Vec<Ins>)>> = Arc::new(s.events.iter().map(|e| (e.1, e.2.clone())).collect());
+    let events: Arc<Vec<(u8, Vec<Ins>)>> = Arc::new(s.events.iter().map(|e| (e.1, e.2.clone())).collect());
+    let kinds: Vec<u8> = s.events.iter().map(|e| e.1).collect();
+    let (w3, events3) = (w.clone(), events.clone());
     let w2 = w.clone();
     let times: Vec<u64> = s.events.iter().map(|e| e.0).collect();
     let res = guarded(move || {
         let mut sim = Sim::new(());
         sim.node("m", Node { w: w2, events });
+        sim.node("o", Other { w: w3, events: events3 });
         let gate = sim.gate("m", "in");
+        let ogate = sim.gate("o", "in");
         let mut rt = Builder::seeded(1).quiet().build(sim.freeze());
         for (i, t) in times.iter().enumerate() {
             rt.add_message_onto(
-                gate.clone(),
+                if kinds[i] == 2 { ogate.clone() } else { gate.clone() },
                 Message::default().id(i as u16),
                 SimTime::from_duration(Duration::from_nanos(*t)),
             );
@@ -352,7 +392,7 @@ fn budgets() -> (usize, usize, usize, usize) {
         //    local tasks recorded before the runtime task is the tick budget
         let s = Script {
             tasks: (0..=2000u32).map(|i| (i, i != 0, vec![])).collect(),
-            events: vec![(1000, false, (0..=2000u32).map(Ins::Spawn).collect()), (1_000_000_000, false, vec![])],
+            events: vec![(1000, 0, (0..=2000u32).map(Ins::Spawn).collect()), (1_000_000_000, 0, vec![])],
         };
         let (_, log) = simulate(&s);
         let l = log.iter().take_while(|e| e.1 != 0).count();
@@ -362,7 +402,7 @@ fn budgets() -> (usize, usize, usize, usize) {
         tasks.extend((2..=2000u32).map(|i| (i, false, vec![])));
         let s = Script {
             tasks,
-            events: vec![(1000, false, vec![Ins::Spawn(0)]), (2000, false, (1..=2000u32).map(Ins::Spawn).collect()), (1_000_000_000, false, vec![])],
+            events: vec![(1000, 0, vec![Ins::Spawn(0)]), (2000, 0, (1..=2000u32).map(Ins::Spawn).collect()), (1_000_000_000, 0, vec![])],
         };
         let (_, log) = simulate(&s);
         let e = log.iter().skip(1).take_while(|e| e.1 != 0).count();
@@ -373,7 +413,7 @@ fn budgets() -> (usize, usize, usize, usize) {
         ev.push(Ins::Spawn(1));
         let s = Script {
             tasks: vec![(0, false, vec![Ins::Wait(1); 1000]), (1, false, vec![])],
-            events: vec![(1000, false, ev), (1_000_000_000, false, vec![])],
+            events: vec![(1000, 0, ev), (1_000_000_000, 0, vec![])],
         };
         let (_, log) = simulate(&s);
         let c = log.iter().take_while(|e| e.1 != 1).count().saturating_sub(1);
@@ -385,9 +425,9 @@ fn budgets() -> (usize, usize, usize, usize) {
         let s = Script {
             tasks,
             events: vec![
-                (1000, false, (5000..5200u32).map(Ins::Spawn).collect()),
-                (5000, false, (0..2000u32).map(Ins::Spawn).collect()),
-                (1_000_000_000, false, vec![]),
+                (1000, 0, (5000..5200u32).map(Ins::Spawn).collect()),
+                (5000, 0, (0..2000u32).map(Ins::Spawn).collect()),
+                (1_000_000_000, 0, vec![]),
             ],
         };
         let (_, log) = simulate(&s);
@@ -458,6 +498,15 @@ impl G {
             }
         }
     }
+    /// a fresh condition of primitive `m` (0 Semaphore, 1 mpsc, 2 Notify)
+    fn cond_of(&mut self, m: u32) -> u32 {
+        loop {
+            self.next_cond += 1;
+            if self.next_cond % 3 == m {
+                return self.next_cond;
+            }
+        }
+    }
     fn kind(&mut self, mode: u64) -> bool {
         match mode {
             0 => false,
@@ -497,6 +546,8 @@ pub fn gen(seed: u64, count: usize, thorough: bool) -> String {
         }
         // messages consumed by the capturing element: (slot = after work event i, wakes)
         let mut cevs: Vec<(usize, Vec<String>)> = Vec::new();
+        // messages to the second module, which wakes conditions of the first one
+        let mut xevs: Vec<(usize, Vec<String>)> = Vec::new();
         let timer_n: [u64; 6] = [1, 60, 61, 62, 200, 2000];
         // 0 tokio::spawn only, 1 spawn_local only, 2 mixed
         let mode = match g.r.below(8) {
@@ -516,7 +567,7 @@ pub fn gen(seed: u64, count: usize, thorough: bool) -> String {
             } else {
                 g.r.range(1, 8)
             };
-            match g.r.below(11) {
+            match g.r.below(17) {
                 0 => {
                     // burst: n tasks ready at once
                     for _ in 0..n {
@@ -686,6 +737,104 @@ pub fn gen(seed: u64, count: usize, thorough: bool) -> String {
                     }
                     cevs.push((e, wakes));
                 }
+                11 => {
+                    // several tasks wait on ONE semaphore; it gets fewer, as many, or more permits than waits
+                    let m = n.min(80);
+                    let k = g.cond_of(0);
+                    let mut waits = 0;
+                    for _ in 0..m {
+                        let loc = g.kind(mode);
+                        let w = g.r.range(1, 2);
+                        waits += w;
+                        let t = g.task(loc, vec![rep(format!("a{k}"), w)]);
+                        evs[g.r.below(e as u64 + 1) as usize].push(format!("s{t}"));
+                    }
+                    let total = match g.r.below(3) {
+                        0 => waits.saturating_sub(g.r.range(1, 2)),
+                        1 => waits,
+                        _ => waits + g.r.range(1, 3),
+                    };
+                    for _ in 0..total {
+                        let e2 = g.r.range(e as u64, nev as u64 - 1) as usize;
+                        if g.r.chance(1, 3) {
+                            let loc = g.kind(mode);
+                            let p = g.task(loc, vec![format!("w{k}")]);
+                            evs[e2].push(format!("s{p}"));
+                        } else {
+                            evs[e2].push(format!("w{k}"));
+                        }
+                    }
+                }
+                12 => {
+                    // several tasks wait on ONE Notify: notify_waiters releases them all, notify_one the oldest,
+                    // a notify_one without waiter is stored (once)
+                    let m = n.min(80);
+                    let k = g.cond_of(2);
+                    for _ in 0..m {
+                        let loc = g.kind(mode);
+                        let w = g.r.range(1, 2);
+                        let t = g.task(loc, vec![rep(format!("a{k}"), w)]);
+                        evs[g.r.below(e as u64 + 1) as usize].push(format!("s{t}"));
+                    }
+                    for _ in 0..g.r.range(1, 5) {
+                        let e2 = g.r.below(nev as u64) as usize;
+                        let ins = if g.r.chance(1, 2) { format!("n{k}") } else { rep(format!("w{k}"), g.r.range(1, 3)) };
+                        if g.r.chance(1, 3) {
+                            let loc = g.kind(mode);
+                            let p = g.task(loc, vec![ins]);
+                            evs[e2].push(format!("s{p}"));
+                        } else {
+                            evs[e2].push(ins);
+                        }
+                    }
+                }
+                13 => {
+                    // a JoinHandle awaited by a task that did not spawn the child
+                    for _ in 0..n.min(30) {
+                        let k = g.cond(true);
+                        let lc = g.kind(mode);
+                        let child = g.task(lc, vec![format!("a{k}")]);
+                        let lj = g.kind(mode);
+                        let joiner = g.task(lj, vec![format!("j{child}")]);
+                        evs[e].push(format!("s{child}"));
+                        evs[e].push(format!("s{joiner}"));
+                        let e2 = g.r.range(e as u64, nev as u64 - 1) as usize;
+                        evs[e2].push(format!("w{k}"));
+                    }
+                }
+                14 => {
+                    // cross-module: another module's event wakes tasks of this module through shared conditions;
+                    // they continue at this module's next own event
+                    let mut wakes = Vec::new();
+                    for _ in 0..n.min(100) {
+                        let loc = g.kind(mode);
+                        let k = g.cond(false);
+                        let mut prog = vec![format!("a{k}")];
+                        if g.r.chance(1, 2) {
+                            let k2 = g.cond(true);
+                            let loc2 = g.kind(mode);
+                            let u = g.task(loc2, vec![format!("a{k2}")]);
+                            evs[0].push(format!("s{u}"));
+                            prog.push(format!("w{k2}"));
+                        }
+                        let t = g.task(loc, prog);
+                        evs[0].push(format!("s{t}"));
+                        wakes.push(format!("w{k}"));
+                    }
+                    xevs.push((e, wakes));
+                }
+                15 => {
+                    // nested spawns: a local task spawns runtime and local children, runtime children spawn runtime
+                    // grandchildren that wake the local ones
+                    for _ in 0..n.min(25) {
+                        let k = g.cond(true);
+                        let gl = g.task(true, vec![format!("a{k}")]);
+                        let grand = g.task(false, vec![format!("w{k}")]);
+                        let child = g.task(false, vec![format!("s{grand}")]);
+                        let parent = g.task(true, vec![format!("s{gl}"), format!("s{child}")]);
+                        evs[e].push(format!("s{parent}"));
+                    }
+                }
                 _ => {
                     // ping-pong between two tasks through semaphores / channels, d rounds
                     let d = n.min(200);
@@ -716,13 +865,15 @@ pub fn gen(seed: u64, count: usize, thorough: bool) -> String {
             writeln!(out, "ev {} {}", times[i], ev.join(" ")).unwrap();
             // consumed messages follow the work event of their slot, before the next one
             let mut tc = times[i];
-            for (slot, wakes) in &cevs {
-                if *slot == i {
-                    tc += 1;
-                    if i + 1 < nev && tc >= times[i + 1] {
-                        break;
+            for (what, list) in [("cev", &cevs), ("xev", &xevs)] {
+                for (slot, wakes) in list {
+                    if *slot == i {
+                        tc += 1;
+                        if i + 1 < nev && tc >= times[i + 1] {
+                            break;
+                        }
+                        writeln!(out, "{what} {tc} {}", wakes.join(" ")).unwrap();
                     }
-                    writeln!(out, "cev {tc} {}", wakes.join(" ")).unwrap();
                 }
             }
         }
